@@ -175,6 +175,7 @@ func (t *fnTrans) call(ins ssa.Instruction, c *ssa.CallCommon, res ssa.Value) {
 			ob := t.oblig("pre", ins, label, cenv.evalBool(cl.Expr), "required at calls of "+key+": "+cl.Text)
 			if ob != nil {
 				ob.Tags = cl.Tags
+				ob.Known = cl.Known
 			}
 		}
 		for _, e := range cenv.errs {
